@@ -33,6 +33,7 @@ def run(ctx):
         raise Inconclusive("LookupSync_skipping.cfg is not refuted (got %s)" % r.violated)
     # pre-creation of a fresh topic's channels from the nsqlookupds' HTTP API (the peer info survives a dropped connection);
     # dropping it with the connection must be refuted
+    ctx.tlaps("LookupPreProof", deps=["LookupPre"])     # any number of nsqlookupds and channels
     ctx.model_check("LookupPre", "LookupPre_mc.cfg", timeout=300)
     r = ctx.tlc("LookupPre", "LookupPre_forget.cfg", timeout=300, label="forget-on-close (expected: PreCreated violated)")
     if r.violated != "PreCreated":
